@@ -30,6 +30,7 @@ RULE = ('cases = (a) histories over an alphabet of 21 concrete mutations and 9 c
         'length with other error and min_depth / reversed() twins; (c) all pairs of an equal-objects palette for a == b => hash(a) == '
         'hash(b); both scipy configurations; distinct by (config, initial path, operation sequence); non-trivial if a twin comparison '
         'or model comparison was made')
+RULE += '; negative-index inserts, a -1/-2 (equal-hash) control-point pair, a very loose length query'
 ASSUMPTIONS = ['a mutated Arc\'s own derived parameters are outside the statement: arcs are carried into the twin as they are',
                'floats are compared to 1e-12 relative (same code, same inputs => same bits unless a cache interferes)']
 TIERS = {
